@@ -18,3 +18,60 @@ package deprecatedstate
 //@   arith int
 //@   requires storageRoot != nil && classHash != nil && nonce != nil
 //@   ensures result == ped(ped(ped(*classHash, *storageRoot), *nonce), felt.Zero)
+
+// ---- historical reads, legacy back-end (C03) -------------------------------------------------
+// Here a history entry at block m holds the value that was CURRENT BEFORE block m wrote: the value
+// as of height h is therefore the entry of the first block above h, and "no entry above h" means
+// the head value is the answer (ErrCheckHeadState). The iterator is an assumed contract over the
+// abstract log histAt / histVal, exactly as in core/state.
+//@ ghost func histAt(n uint64) bool
+//@ ghost func histVal(n uint64) []byte
+//@ ghost func be64of(b []byte) uint64
+//@ ghost func bytesHasPrefix(s []byte, p []byte) bool
+//@ ghost var itValid bool
+//@ ghost var itAt uint64
+//@ ghost var itPrefixLen int
+//@ ghost var itPrefix []byte
+//@ extern func encoding/binary.(bigEndian).AppendUint64
+//@   ensures len(result) == len(b) + 8 && be64of(result[len(b):]) == v
+//@ extern func encoding/binary.(bigEndian).Uint64
+//@   ensures result == be64of(b)
+//@ extern func bytes.HasPrefix
+//@   ensures result == bytesHasPrefix(s, prefix)
+//@ extern func errors.Join
+//@   ensures (result == nil) <==> (forall i int :: 0 <= i && i < len(errs) ==> errs[i] == nil)
+//@ extern func github.com/NethermindEth/juno/db.IndexedBatch.NewIterator
+//@   assigns itValid, itAt, itPrefixLen, itPrefix
+//@   ensures result1 == nil ==> result0 != nil && !itValid && itPrefixLen == len(prefix) && itPrefix == prefix
+//@ extern func github.com/NethermindEth/juno/db.Iterator.Close
+//@ extern func github.com/NethermindEth/juno/db.Iterator.Valid
+//@   ensures result == itValid
+//@ extern func github.com/NethermindEth/juno/db.Iterator.Seek
+//@   requires len(key) == itPrefixLen + 8
+//@   assigns itValid, itAt
+//@   ensures result == itValid
+//@   ensures found: result ==> histAt(itAt) && itAt >= be64of(key[itPrefixLen:]) && (forall j uint64 :: histAt(j) && j >= be64of(key[itPrefixLen:]) ==> j >= itAt)
+//@   ensures none: !result ==> (forall j uint64 :: histAt(j) ==> j < be64of(key[itPrefixLen:]))
+//@ extern func github.com/NethermindEth/juno/db.Iterator.Next
+//@   assigns itValid, itAt
+//@   ensures result == itValid
+//@   ensures forward: old(itValid) && result ==> histAt(itAt) && itAt > old(itAt) && (forall j uint64 :: histAt(j) && j > old(itAt) ==> j >= itAt)
+//@   ensures last: old(itValid) && !result ==> (forall j uint64 :: histAt(j) ==> j <= old(itAt))
+//@   ensures stays_invalid: !old(itValid) ==> !result
+//@ extern func github.com/NethermindEth/juno/db.Iterator.Key
+//@   requires itValid
+//@   ensures len(result) == itPrefixLen + 8 && be64of(result[itPrefixLen:]) == itAt && bytesHasPrefix(result, itPrefix)
+//@ extern func github.com/NethermindEth/juno/db.Iterator.Value
+//@   requires itValid
+//@   ensures result1 == nil ==> result0 == histVal(itAt)
+
+//@ func (*State).valueAt
+//@   props C03
+//@   arith int
+//@   requires s != nil && s.txn != nil
+//@   assigns itValid, itAt, itPrefixLen, itPrefix
+//@   loop 1: invariant opened: itPrefixLen == len(key) && itPrefix == key
+//@   loop 1: invariant at: itValid ==> histAt(itAt) && itAt >= height && (forall j uint64 :: histAt(j) && j > height ==> j >= itAt)
+//@   loop 1: invariant exhausted: !itValid ==> (forall j uint64 :: histAt(j) ==> j <= height)
+//@   ensures first_above: result1 == nil ==> (exists k uint64 :: histAt(k) && k > height && result0 == histVal(k) && (forall j uint64 :: histAt(j) && j > height ==> j >= k))
+//@   ensures head: (forall j uint64 :: histAt(j) ==> j <= height) ==> result1 != nil
